@@ -30,7 +30,7 @@ Fresh == [run |-> 0, mode |-> "none", cthr |-> 0, hasprog |-> FALSE, p |-> NoRun
           live |-> 0, tids |-> << >>, wc |-> << >>, runno |-> 0, rb |-> NoRun,
           owner |-> << >>, nxa |-> 0, nxn |-> 0, nxend |-> FALSE, nxnext |-> 0, nxc |-> 0,
           matchRoots |-> {}, matched |-> {}, finderEnd |-> FALSE, after |-> << >>,
-          crashed |-> FALSE, bound |-> 0, big |-> FALSE, dig |-> [n |-> 0, hs |-> 0, hu |-> 0, sum |-> 0, mink |-> -1], nviol |-> 0, nruns |-> 0, nchecked |-> 0]
+          crashed |-> FALSE, bound |-> 0, trunc |-> FALSE, big |-> FALSE, dig |-> [n |-> 0, hs |-> 0, hu |-> 0, sum |-> 0, mink |-> -1], nviol |-> 0, nruns |-> 0, nchecked |-> 0]
 
 Get(f, x, d) == IF x \in DOMAIN f THEN f[x] ELSE d
 Put(f, x, v) == IF x \in DOMAIN f THEN [f EXCEPT ![x] = v] ELSE f @@ (x :> v)
@@ -100,8 +100,10 @@ After(a, ev) ==
              b1 == IF a.nxa = ev.a THEN CloseBurst(a) ELSE a
              first == ev.s = FirstStage(a.p) /\ ev.s # KeyStage
              blk == IF a.params.ck = "exact" /\ a.params.csv > 0 THEN ev.k \div a.params.csv ELSE 0
-         IN  [b1 EXCEPT !.calls = IF ev.s = KeyStage THEN @ ELSE BagAdd(@, c),
-                        !.allcalls = IF a.seqmode /\ ev.s # KeyStage THEN Append(@, c) ELSE @,
+         IN  [b1 EXCEPT !.calls = IF ev.s = KeyStage \/ IsInf(a.p) \/ a.trunc THEN @ ELSE BagAdd(@, c),
+                        \* (kept only as far as it can still be a prefix of the sequential calls)
+                        !.allcalls = IF a.seqmode /\ ev.s # KeyStage /\ Len(@) <= Len(a.fcalls) + 4
+                                     THEN Append(@, c) ELSE @,
                         !.tids = Put(@, ev.s, Get(@, ev.s, {}) \cup {ev.t}),
                         !.eagerSeen = (a.phase = "build") \/ @,
                         !.eagerAny = (a.phase = "build") \/ @,
@@ -122,6 +124,7 @@ After(a, ev) ==
                         !.eagerAny = (a.phase = "build") \/ @]
     [] ev.e = "te" -> [a EXCEPT !.phase = "done", !.nchecked = @ + 1]
     [] ev.e = "abandon" -> [a EXCEPT !.lin = FALSE]
+    [] ev.e = "trunc" -> [a EXCEPT !.trunc = TRUE]      \* the recorder stopped recording calls
     [] OTHER -> a
 
 (***************************************************************************)
@@ -219,7 +222,7 @@ C03_ReduceAll(a, ev, b) ==
 C04_Count(a, ev, b) ==
   Normal(a, ev) /\ a.p.term.k = "count" => ResultOK(a, ev)
 C04_ForEach(a, ev, b) ==
-  Normal(a, ev) /\ a.p.term.k = "for_each" /\ ~a.big =>
+  Normal(a, ev) /\ a.p.term.k = "for_each" /\ ~a.big /\ ~a.trunc =>
      ev.kind = "unit" /\ BagEq(BagOfSeq(StageSub(a.fcalls, TermStage)),
                                [c \in {x \in DOMAIN a.calls : x[1] = TermStage} |-> a.calls[c]])
 
@@ -227,7 +230,7 @@ C05_NeverMoreThanSequential(a, ev, b) ==
   ev.e = "call" /\ ev.s # KeyStage /\ ~IsInf(a.p) /\ ~a.big =>
      BagCount(b.calls, <<ev.s, ev.k, ev.v>>) <= BagCount(a.callbag, <<ev.s, ev.k, ev.v>>)
 C05_ExactlySequential(a, ev, b) ==
-  Normal(a, ev) /\ ev.kind # "panic" /\ a.p.term.k \in FullTerms /\ ~a.big => BagEq(a.calls, a.callbag)
+  Normal(a, ev) /\ ev.kind # "panic" /\ a.p.term.k \in FullTerms /\ ~a.big /\ ~a.trunc => BagEq(a.calls, a.callbag)
 C05_NoReentrancy(a, ev, b) == ev.e # "reent"
 C05_SourceInOrder(a, ev, b) == ev.e = "nx" /\ ev.pos >= 0 => ev.pos = a.nxnext
 
@@ -252,7 +255,7 @@ C08_SequentialOnCaller(a, ev, b) ==
 C09_SequentialValue(a, ev, b) ==
   Normal(a, ev) /\ a.seqmode /\ a.p.term.k # "collect_x" => ResultOK(a, ev)
 C09_StageOrder(a, ev, b) ==
-  Normal(a, ev) /\ a.seqmode /\ ev.kind # "panic" /\ ~IsInf(a.p) /\ ~a.big =>
+  Normal(a, ev) /\ a.seqmode /\ ev.kind # "panic" /\ ~IsInf(a.p) /\ ~a.big /\ ~a.trunc =>
      \A s \in CallStages(a) :
         IF a.p.term.k \in FullTerms
         THEN StageSub(a.allcalls, s) = StageSub(a.fcalls, s)
